@@ -678,6 +678,11 @@ def run(ctx, replay=None):
                     seen.add(tuple(sorted(sig.items())))
                     ctx.violation("property", what + " [real LocalBackend, stream '%s', delete_checkpoints=True]" % name,
                                   case=dict(stream="localfs", part=name), signature=sig)
+            ctx.h("localfs", name + "_reports_with_checkpoint", sum(1 for e in events if e[0] == "reported" and e[3]))
+            for msg in ckpt_localfs.contract_violations(events):
+                ctx.violation("correspondence", "script contract 'a trial that reports has written its checkpoint' broken: " + msg,
+                              case=dict(stream="localfs", part=name), failing_input=False,
+                              broken="hypothesis of c20_pbt_clone_source_on_disk (harness/ckpt_localfs.py script)")
             fs_terms.append(fs_case_term(events))
             fs_meta.append(dict(stream="localfs", part=name))
             if crash and not fviols:
